@@ -225,6 +225,9 @@ func (d *driver) next() M {
 		ch := pick(r, d.ch.Cfg.Chans)
 		return M{"type": pick(r, []string{"ChannelOpen", "ChannelOpen", "ChannelSend", "ChannelTake"}), "ch": ch, "who": "x"}
 	case w < 96:
+		if r.Intn(3) == 0 {
+			return M{"type": "InitRaw", "period": int64(r.Intn(4) - 2)}
+		}
 		return M{"type": "ExportImport"}
 	default:
 		if r.Intn(8) == 0 { // ask about a withdrawal that has been paid
